@@ -132,6 +132,14 @@ func ReadMultiTrees(reader *bufio.Reader, format int) <-chan tree.Trees {
 				id++
 				line, e = fileutils.ReadUntilSemiColon(reader)
 			}
+			// Text left after the last ';': the last tree is not terminated
+			if id > 0 && e != nil && strings.TrimSpace(line) != "" {
+				compTrees <- tree.Trees{
+					Tree: nil,
+					Id:   id,
+					Err:  fmt.Errorf("Unterminated tree at the end of the input: %s", strings.TrimSpace(line)),
+				}
+			}
 		case FORMAT_NEXUS:
 			if n, err := nexus.NewParser(reader).Parse(); err != nil {
 				compTrees <- tree.Trees{
